@@ -51,27 +51,23 @@ Proof.
   intros. split; intros [n H]; [eapply field_extraction_lazy|eapply field_extraction_lazy_conv]; eauto.
 Qed.
 
-(* refinement of the call-by-need machine (thunks, update, black-holing) to S: let rec and
-   recursive records included; [wft] = record literals have pairwise distinct field names *)
-Theorem C09_need_refines_name_partial : forall fl n t r h,
+(* refinement of the call-by-need machine (thunks, update, black-holing) to S, let rec and
+   recursive records included; [wft] = record literals have pairwise distinct field names.
+   A result of the machine is a result of S, and a reported black hole is a divergence of S. *)
+Theorem C09_need_refines_name : forall fl n t r h,
   forallb (fun p => wft (snd p)) fl = true -> wft t = true ->
-  runN fl Good n t = (r, h) -> r <> OutOfFuel -> r <> Err InfiniteRec ->
-  exists m, run fl m [] t = r.
-Proof. intros fl n t r h Hfl. exact (need_refines_name fl Hfl n t r h). Qed.
+  runN fl Good n t = (r, h) -> r <> OutOfFuel ->
+  (r <> Err InfiniteRec -> exists m, run fl m [] t = r) /\
+  (r = Err InfiniteRec -> forall m, run fl m [] t = OutOfFuel).
+Proof. intros fl n t r h Hfl. exact (need_refines_name_full fl Hfl n t r h). Qed.
 
-Theorem C09_need_extract_refines_name_partial : forall fl n t path r h,
+(* the same for field extraction on the machine *)
+Theorem C09_need_extract_refines_name : forall fl n t path r h,
   forallb (fun p => wft (snd p)) fl = true -> wft t = true ->
-  extractN fl Good n t path = (r, h) -> r <> OutOfFuel -> r <> Err InfiniteRec ->
-  exists m, extract fl m [] t path = r.
-Proof. intros fl n t path r h Hfl. exact (need_extract_refines_name fl Hfl n t path r h). Qed.
-
-(* the full statement also says that a reported black hole is a divergence of S — not proved *)
-Definition C09_full_need_refines_name : Prop :=
-  forall fl n t r h,
-    forallb (fun p => wft (snd p)) fl = true -> wft t = true ->
-    runN fl Good n t = (r, h) -> r <> OutOfFuel ->
-    (r <> Err InfiniteRec -> exists m, run fl m [] t = r) /\
-    (r = Err InfiniteRec -> forall m, run fl m [] t = OutOfFuel).
+  extractN fl Good n t path = (r, h) -> r <> OutOfFuel ->
+  (r <> Err InfiniteRec -> exists m, extract fl m [] t path = r) /\
+  (r = Err InfiniteRec -> forall m, extract fl m [] t path = OutOfFuel).
+Proof. intros fl n t path r h Hfl. exact (need_extract_refines_name_full fl Hfl n t path r h). Qed.
 
 Theorem C09_need_wrongcell_refuted : exists t, wft t = true /\ acyclic t = true /\ ~ refines_on [] WrongCell t.
 Proof. exact need_wrongcell_refuted. Qed.
